@@ -93,8 +93,36 @@ class Run(object):
         return r
 
 
+class Watchdog(BaseException):
+    pass
+
+
+def _alarm(signum, frame):
+    raise Watchdog()
+
+
 def gen_case(backend, rnd, nmsg, nops, concurrent):
+    """an operation that never returns (every greenlet blocked for ever, or still running after a generous real-time
+    allowance) ends the case with a 'hung' event instead of ending the driver"""
+    import signal
+    from gevent.exceptions import LoopExit
     run = Run(backend, concurrent, {'prefix': rnd.choice(['slimta:', 'slimta:', 'mq-', 'slimta:q-', 'q.'])})
+    signal.signal(signal.SIGALRM, _alarm)
+    signal.setitimer(signal.ITIMER_REAL, 60.0)
+    try:
+        _gen_body(run, backend, rnd, nmsg, nops, concurrent)
+    except (LoopExit, Watchdog) as e:
+        run.ev.append({'t': 'hung', 'why': type(e).__name__})
+        try:
+            backends.cleanup_disk(run.st)
+        except BaseException:  # noqa
+            pass
+    finally:
+        signal.setitimer(signal.ITIMER_REAL, 0)
+    return run
+
+
+def _gen_body(run, backend, rnd, nmsg, nops, concurrent):
     live = {}      # sid -> [rcpts left, marked?]
     dead = []
     ts = [100]
